@@ -31,5 +31,8 @@ ShapesZ  == {<<2, 3>>, <<3, 1>>, <<2, 1, 2>>}
 ShapesSib == {<<5>>, <<3, 3>>}
 \* two consecutive writes through the same view objects (whatever an object remembers from its first use)
 ShapesTwo == {<<4>>, <<2, 2>>, <<2, 3>>}
+\* arrays of FOUR dimensions (the statement says "1-3+ dims"; index arithmetic written out for ranks 1-3 with a generic
+\* tail is only reached here): a stepped fourth axis needs an extent of 3 there
+ShapesR4 == {<<2, 1, 2, 3>>, <<1, 2, 2, 4>>}
 AllWrites == {"set", "apply", "applyslice", "copyfrom", "twoarray"}
 =============================================================================
